@@ -63,6 +63,10 @@ func execStop(input string) Result {
 		sp.Expect = 0
 	}
 	sp.TimeoutMs = 25000
+	if sp.MaxHops > 0 && sp.StopAt == nil {
+		// with outlinks the crawl does not end by itself within the budget: stop it somewhere
+		sp.StopAt = &Trigger{"fin.notified", 2}
+	}
 	res, evs, status := runChild(sp, time.Duration(sp.TimeoutMs+20000)*time.Millisecond)
 	busy, _ := abstractStopState(evs)
 	sc := scanWarcDir(filepath.Join(sp.Dir, "jobs"))
@@ -119,6 +123,9 @@ func genStop(r *Rng, i int, tier string) string {
 	}
 	if r.Chance(20) {
 		s += " ondisk=1"
+	}
+	if r.Chance(45) {
+		s += " maxhops=1" // outlinks flow through the postprocessor -> finisher -> queue path while stopping
 	}
 	// the stop moment: cycle through all of them so that a small run covers each
 	m := stopMoments[i%len(stopMoments)]
